@@ -67,7 +67,7 @@ CLAIMED = {
             "Trusted: Lean kernel + standard axioms; hypothesis hkeep (snapshot side steps restore the solver state) is what the repaired code implements and L-driver validates (gear with snapshots); sampling.",
             "DESIGN.md 4/C08"),
     'C13': ("Lean 4 equivariance theorems for the 1D space operator under reflection and change of units, for arbitrary kernels obeying mirror / homogeneity laws, with the laws proved for the flux and limiter kernels + exact-Q correspondence + twin-problem sweep",
-            "Machine-checked proof that rhs(mirror problem)(mirror data) = mirror(rhs) and rhs'(scaled data) = (f/l) rhs for every mesh, reconstruction, boundary treatment and n >= 1, given the kernel laws; mirror laws proved for every flux (C02) and limiter (C12 oddness), homogeneity for minmod/superbee (exact) and vanalbada/vanleer (bound). Every explicit step loop is equivariant under any additive map intertwining the operators (C13c) and the lift through the whole driver (save times, stop criteria, monitors, snapshots; time rescaled by a positive factor) is the morphism theorem C07c.run_equivariant with C14b.solve_equivariant_* for every explicit integrator. Partial: the time-rescaling instance at integrator level, HLLC at sM = 0 and the bit-for-bit clause (demanded by the sweep wherever every operation commutes exactly with powers of two) are explored by the twin-problem sweep; units with the regularised limiters fail (known finding K1); implicit integrators deviate by O(epsdiff) under reflection (known finding K3).",
+            "Machine-checked proof that rhs(mirror problem)(mirror data) = mirror(rhs) and rhs'(scaled data) = (f/l) rhs for every mesh, reconstruction, boundary treatment and n >= 1, given the kernel laws; mirror laws proved for every flux (C02) and limiter (C12 oddness), homogeneity for minmod/superbee (exact) and vanalbada/vanleer (bound). Every explicit step loop is equivariant under any additive map intertwining the operators (C13c) and the lift through the whole driver (save times, stop criteria, monitors, snapshots; time rescaled by a positive factor) is the morphism theorem C07c.run_equivariant with C14b.solve_equivariant_* for every explicit integrator. Whole solves in other units and of the mirror problem are proved for every explicit integrator with a global time step (C13d.solve_units*, solve_mirror*: same flags and iteration counts, times scaled by l/b, data rescaled resp. mirrored, every snapshot), all hypotheses discharged for the Burgers kernels. Partial: guarded instantiation for Euler HLLE (positive densities), local time steps, HLLC at sM = 0 and the bit-for-bit clause (demanded by the sweep wherever every operation commutes exactly with powers of two) are explored by the twin-problem sweep; units with the regularised limiters fail (known finding K1); implicit integrators deviate by O(epsdiff) under reflection (known finding K3).",
             "Trusted: Lean kernel + standard axioms; transcription of fvm1d (validated by L-rhs1d) and kernels; sampling for the un-proved clauses.",
             "DESIGN.md 4/C13"),
     'C10': ("Lean 4 theorems (admissible cone; HLL star state; the first-order HLL update as an explicit convex combination; the code's HLLE / HLL / Rusanov fluxes are HLL fluxes with its own speeds; positivity of one step and of the SSP steps on the periodic pipeline model) + translated kernels + exact-Q correspondence + positivity sweep",
